@@ -33,7 +33,7 @@ THEOREMS = [
 LEAN_MODULES = ["PorepyVerif.C12.Props"]
 AUDIT = "PorepyVerif/C12/Audit.lean"
 DRIVER = "PorepyVerif/C12/Driver.lean"
-N = {"quick": 240, "thorough": 2500}
+N = {"quick": 200, "thorough": 2500}
 TOL = 1e-10
 KEYS = ["flux", "bound_flux", "bound_pressure_cell", "bound_pressure_face", "vector_source", "bound_pressure_vector_source"]
 RULE = ("grids: CartGrid / TensorGrid (non-uniform rational coordinates) / StructuredTriangleGrid / StructuredTetrahedralGrid in 1-3 D, "
